@@ -171,8 +171,12 @@ def drive_spec(spec):
             # dictionary, or an input file (plain or gzipped) as `panqec run` reads it
             form = (len(json.dumps(spec)) + len(spec.get('runs', []))) % 3
             if form == 0:
-                batch = read_input_dict(copy.deepcopy(data), '/nonexistent/out.json',
-                                        verbose=False)
+                mine = copy.deepcopy(data)
+                batch = read_input_dict(mine, '/nonexistent/out.json', verbose=False)
+                if len(json.dumps(spec)) % 2 == 0:
+                    # one specification object, a batch per output file: the
+                    # second expansion must give the same simulations
+                    batch = read_input_dict(mine, '/nonexistent/out2.json', verbose=False)
             else:
                 import gzip
                 import tempfile
